@@ -322,8 +322,8 @@ fn probe(hexs: &str) {
 
 fn main() {
     let a = parse_args();
-    if let Some(i) = a.rest.iter().position(|x| x == "--probe") { probe(&a.rest[i + 1]); return; }
     std::panic::set_hook(Box::new(|_| {}));
+    if let Some(i) = a.rest.iter().position(|x| x == "--probe") { probe(&a.rest[i + 1]); return; }
     let mut sum = Summary::default();
     sum.rule = "case = one string (systematic list first: all IPv6 shapes with 0-8 groups around '::', IPvFuture incl. 'V', dec-octet boundaries, every ucschar/iprivate range end +-1 and every ASCII character in every component; then generated members of IRI / irelative-ref, their single-character mutants, random strings over 31 delimiter-heavy characters) checked for validation, as_base and Namespace::get, \
 plus (for 2 cases out of 3) a (base, reference) pair of generated members with dot segments checked for resolution; non-trivial = contains an IP-literal, a non-ASCII or percent-encoded character, a userinfo/port, an empty or dot segment, or is rejected by someone; distinct = distinct (string, base, reference)".into();
